@@ -34,7 +34,7 @@ fn copy_subjects() -> Vec<(&'static str, CopyFn)> {
 }
 
 fn fam_copy(cx: &mut Cx) {
-    let big: Vec<usize> = if cx.thorough { vec![255, 256, 257, 511, 512, 513, 1023, 1024, 1025, 4095, 4096, 4097] } else { vec![256, 257, 1025, 4097] };
+    let big: Vec<usize> = if cx.thorough { vec![255, 256, 257, 511, 512, 513, 1023, 1024, 1025, 4095, 4096, 4097] } else { vec![255, 256, 257, 1024, 1025, 4095, 4096, 4097] };
     for (name, f) in copy_subjects() {
         if !cx.subject(name, "copy", "") {
             continue;
@@ -207,6 +207,27 @@ fn fam_compare(cx: &mut Cx) {
                         });
                     }
                 }
+            }
+        }
+        // beyond the prefetch / streaming thresholds (256, 4096): equal, and one byte changed
+        let bigs: Vec<usize> = if name.starts_with("memops") || name.starts_with("fast") { vec![255, 256, 257, 4095, 4096, 4097] } else { vec![255, 256, 257] };
+        for &n in bigs.iter() {
+            if cx.lite && n > 300 {
+                continue;
+            }
+            let a = content("random", n, &mut rng);
+            for p in [None, Some(0usize), Some(n / 2), Some(n - 2), Some(n - 1)] {
+                let mut b = a.clone();
+                if let Some(p) = p {
+                    b[p] = b[p].wrapping_add(128);
+                }
+                let pls = cx.pls2();
+                cx.case("compare", json!({"a": bytes_json(&a), "b": bytes_json(&b), "class": "big"}), json!({"la": n, "lb": n, "class": "big"}), &pls, 1, true,
+                        &mut |a1, a2, ps, pd, _| {
+                    let pa = a1.place(ps, &a);
+                    let pb = a2.place(pd, &b);
+                    json!({"r": f(pa, pb)})
+                });
             }
         }
         // random pairs with a common prefix and different lengths
